@@ -355,7 +355,77 @@ func (w *World) rootCertFor(i int) *certs.Certificate {
 	return c
 }
 
-// tubeFull: any other tube type; observation = did the server close it straight away.
+// tubeFull: any other tube of the switch. Observation: the server closes an unrecognised tube
+// straight away (6), hands a reliable PFTube to handlePF which dials the address of the last
+// port-forwarding request (4), keeps a window-size tube open (5).
 func (w *World) tubeFull(o *Op) View {
-	panic(fmt.Sprint("tubeFull not used: ", o.Ty))
+	s := w.Sessions[o.Sid]
+	var ln net.Listener
+	dialled := make(chan bool, 1)
+	if o.Ty == common.PFTube {
+		// a forwarding target must be in place: do a control request first (not part of the op's view)
+		l, err := net.Listen("tcp", "127.0.0.1:0")
+		if err != nil {
+			panic(err)
+		}
+		ln = l
+		defer ln.Close()
+		ct, err := s.Client.CreateReliableTube(common.PFControlTube)
+		if err != nil {
+			panic(err)
+		}
+		addr := ln.Addr().String()
+		pkt := []byte{1, 4, 0, 0}
+		binary.BigEndian.PutUint16(pkt[2:], uint16(len(addr)))
+		pkt = append(pkt, addr...)
+		ct.Write(pkt)
+		ln.(*net.TCPListener).SetDeadline(time.Now().Add(ioTimeout))
+		if c, err := ln.Accept(); err == nil { // StartPFServer's probe connection
+			c.Close()
+		}
+		readByte(ct, ioTimeout)
+		go ct.Close()
+		go func() {
+			ln.(*net.TCPListener).SetDeadline(time.Now().Add(2 * time.Second))
+			c, err := ln.Accept()
+			if err == nil {
+				c.Close()
+			}
+			dialled <- err == nil
+		}()
+	}
+	t, err := s.Client.CreateReliableTube(tubes.TubeType(o.Ty))
+	if err != nil {
+		panic(err)
+	}
+	defer func() { go t.Close() }()
+	if o.Ty == common.PFTube {
+		if <-dialled {
+			return View{Kind: "H", H: 4}
+		}
+		return View{Kind: "H", H: 78}
+	}
+	// closed by the server = a read ends (EOF) quickly without data
+	type res struct {
+		n   int
+		err error
+	}
+	ch := make(chan res, 1)
+	go func() {
+		b := make([]byte, 1)
+		n, err := t.Read(b)
+		ch <- res{n, err}
+	}()
+	select {
+	case r := <-ch:
+		if r.n == 0 && r.err != nil {
+			return View{Kind: "H", H: 6}
+		}
+		return View{Kind: "H", H: 79}
+	case <-time.After(400 * time.Millisecond):
+		if o.Ty == common.WinSizeTube {
+			return View{Kind: "H", H: 5}
+		}
+		return View{Kind: "H", H: 80}
+	}
 }
